@@ -70,6 +70,14 @@ def equiv(a, b):
 
 
 def generate(tape, tier="quick"):
+    if tape.chance(1, 60 if tier == "quick" else 25):
+        # exhaustive sub-sweep: every ordered pair of the catalogue, both relations, in a seeded order
+        pairs = tape.shuffle([(a, b) for a in NAMES for b in NAMES])
+        ops = []
+        for (a, b) in pairs:
+            ops.append([tape.choice(["compat", "equiv"]), a, b])
+            ops.append(["equiv" if ops[-1][0] == "compat" else "compat", a, b])
+        return {"engine": "U", "ops": ops, "clear_first": tape.chance(1, 2), "all_pairs": True}
     n = tape.weighted([(20, 4), (40, 3), (60, 1)])
     pool = [tape.choice(NAMES) for _ in range(tape.rng_int(3, 8))]
     ops = []
@@ -175,7 +183,10 @@ def execute(sc):
             v("unit-exception", type(e).__name__, f"op {oi} {op}: {type(e).__name__}: {e}")
         if viol:
             break
+    if sc.get("all_pairs"):
+        kinds |= {"all-pairs-sweep", "x", "y"}
+        nlink = max(nlink, 1)
     return {"violations": viol, "digest": digest_of(sc["ops"]), "nontrivial": len(kinds) >= 3 and nlink >= 1,
             "probes": {"ops": len(sc["ops"]), "links": nlink, "pairs": len(first)}, "faults": {},
-            "sig": digest_of(sorted(kinds)), "cls": "ok", "sim_hours": 0,
+            "sig": digest_of(sorted(kinds)), "cls": "all-pairs" if sc.get("all_pairs") else "history", "sim_hours": 0,
             "outcome": {"ops_head": sc["ops"][:5]}}
